@@ -185,7 +185,7 @@ fn text_limit(client: Option<u16>, cfg: Option<u16>) -> usize {
 }
 
 /// Parsed view of a response datagram (None = does not parse).
-struct View { id: u16, b2: u8, tc: bool, qd: u16, an: u16, ns: u16, ar: u16, opt: bool, question: Vec<u8> }
+struct View { id: u16, b2: u8, b3: u8, ottl: u32, odl: u16, tc: bool, qd: u16, an: u16, ns: u16, ar: u16, opt: bool, question: Vec<u8> }
 fn view(bytes: &[u8]) -> Option<View> {
     let m = Message::from_octets(bytes.to_vec()).ok()?;
     // walk every section completely; trailing octets are not allowed
@@ -201,7 +201,10 @@ fn view(bytes: &[u8]) -> Option<View> {
     }
     if end != bytes.len() { return None; }
     let c = m.header_counts();
-    Some(View { id: m.header().id(), b2: bytes[2], tc: m.header().tc(), qd: c.qdcount(), an: c.ancount(), ns: c.nscount(),
+    let mut ottl = 0u32;
+    let mut odl = 0u16;
+    if let Ok(add) = m.additional() { for r in add { if let Ok(r) = r { if r.rtype() == Rtype::OPT { ottl = r.ttl().as_secs(); odl = r.rdlen(); break; } } } }
+    Some(View { id: m.header().id(), b2: bytes[2], b3: bytes[3], ottl, odl, tc: m.header().tc(), qd: c.qdcount(), an: c.ancount(), ns: c.nscount(),
         ar: c.arcount(), opt: m.opt().is_some(), question: qbytes })
 }
 fn question_of(req: &[u8]) -> Option<Vec<u8>> {
@@ -302,6 +305,187 @@ fn imp_cfg(v: Option<u16>) -> String {
     let rest = &d[i..];
     if rest.starts_with("None") { "-".into() }
     else { rest.trim_start_matches("Some(").split(')').next().unwrap_or("?").to_string() }
+}
+
+// ------------------------------------------------ one datagram, whole server (srv)
+
+#[derive(Clone, Debug)]
+enum OptSpec { None, One(u16, u8), Ka(u16, bool), Dup(u16), Bad }
+#[derive(Clone, Debug)]
+enum SvcSpec { None, Err(u8), Ok(Resp) }
+#[derive(Clone, Debug)]
+struct SrvCase { tcp: bool, id: u16, b2: u8, nq: usize, labels: Vec<usize>, qtype: u16, opt: OptSpec, cfg: Option<u32>, svc: SvcSpec }
+impl SrvCase { fn cfg16(&self) -> Option<u16> { self.cfg.map(|v| v as u16) } }
+impl SrvCase {
+    fn datagram(&self) -> Vec<u8> {
+        let nopt = match self.opt { OptSpec::None => 0u8, OptSpec::One(..) | OptSpec::Ka(..) | OptSpec::Bad => 1, OptSpec::Dup(_) => 2 };
+        let mut v = vec![(self.id >> 8) as u8, self.id as u8, self.b2, 0, (self.nq >> 8) as u8, self.nq as u8, 0, 0, 0, 0, 0, nopt];
+        for _ in 0..self.nq {
+            for &l in &self.labels { v.push(l as u8); v.extend(std::iter::repeat(b'a').take(l)); }
+            v.push(0);
+            v.extend_from_slice(&[(self.qtype >> 8) as u8, self.qtype as u8, 0, 1]);
+        }
+        let opt = |c: u16, ver: u8, rdlen: u16| vec![0, 0, 41, (c >> 8) as u8, c as u8, 0, ver, 0, 0, (rdlen >> 8) as u8, rdlen as u8];
+        match self.opt {
+            OptSpec::None => {}
+            OptSpec::One(c, ver) => v.extend(opt(c, ver, 0)),
+            OptSpec::Ka(c, false) => { v.extend(opt(c, 0, 4)); v.extend_from_slice(&[0, 11, 0, 0]); }
+            OptSpec::Ka(c, true) => { v.extend(opt(c, 0, 6)); v.extend_from_slice(&[0, 11, 0, 2, 0, 50]); }
+            OptSpec::Dup(c) => { v.extend(opt(c, 0, 0)); v.extend(opt(4096, 0, 0)); }
+            OptSpec::Bad => v.extend(opt(1232, 0, 0xffff)),
+        }
+        v
+    }
+    fn client(&self) -> Option<u16> { match self.opt { OptSpec::One(c, _) | OptSpec::Ka(c, _) | OptSpec::Dup(c) => Some(c), _ => None } }
+    fn rc_of(k: u8) -> u8 { [1, 2, 4, 5][(k % 4) as usize] }
+    fn line(&self) -> String {
+        let o = match self.opt { OptSpec::None => "-".to_string(), OptSpec::One(c, v) => format!("one:{}:{}", c, v), OptSpec::Ka(c, t) => format!("ka:{}:{}", c, t as u8), OptSpec::Dup(c) => format!("dup:{}", c), OptSpec::Bad => "bad".into() };
+        let sv = match &self.svc {
+            SvcSpec::None => "none".to_string(),
+            SvcSpec::Err(k) => format!("err:{}", Self::rc_of(*k)),
+            SvcSpec::Ok(r) => format!("ok:{}:{}:{}:{}:{}:{}:{}", 0x80 | (self.b2 & 0x79) | if r.aa { 4 } else { 0 }, r.b3 & 0xbf, r.n_an, r.an_len, r.n_ar, r.ar_len,
+                match r.opt { Some((s, d)) => format!("{}/{}", s, d), None => "-".into() }),
+        };
+        format!("{} {} {} {} {} {} {} {} {} {}", if self.tcp { "tcp" } else { "srv" }, self.id, self.b2, self.nq, self.nq, labels_str(&self.labels), self.qtype, o, opt_str(self.cfg), sv)
+    }
+}
+
+fn gen_srv_case(r: &mut Rng, id: u16) -> SrvCase {
+    let labels: Vec<usize> = match r.below(4) { 0 => vec![], 1 => vec![1], 2 => vec![63, 63, 63, 61], _ => (0..r.range(1, 3)).map(|_| r.range(1, 12) as usize).collect() };
+    let qsz = qlen_of(&labels);
+    let max_nq = (1024 - 12 - 22) / qsz; // the server reads datagrams into a 1024-octet buffer
+    let nq = match r.below(8) { 0 => 0, 1 | 2 | 3 => 1, 4 => 2, 5 => r.range(2, 8) as usize, 6 => max_nq, _ => r.range(1, max_nq as u64) as usize }.min(max_nq);
+    let opcode: u8 = match r.below(8) { 0 => 1, 1 => 2, 2 => 4, 3 => 5, _ => 0 };
+    let b2 = (opcode << 3) | (r.below(2) as u8) | if r.chance(1, 8) { 0x80 } else { 0 };
+    let opt = match r.below(8) { 0 | 1 | 2 => OptSpec::None, 3 => OptSpec::Dup(pick_size(r)), 4 => OptSpec::Bad, 5 => OptSpec::One(pick_size(r), r.range(1, 3) as u8), _ => OptSpec::One(pick_size(r), 0) };
+    let cfg = match r.below(5) { 0 => None, 1 => Some(512), 2 => Some(4096), 3 => Some(pick_size(r).clamp(512, 4096)), _ => Some(1232) };
+    let client = match opt { OptSpec::One(c, _) | OptSpec::Dup(c) => Some(c), _ => None };
+    let svc = match r.below(6) { 0 => SvcSpec::None, 1 => SvcSpec::Err(r.u8()), _ => SvcSpec::Ok(pick_resp(r, text_limit(client, cfg), nq * qsz)) };
+    SrvCase { tcp: false, id, b2, nq, labels, qtype: 1, opt, cfg: cfg.map(|v| v as u32), svc }
+}
+
+/// T2 + oracle: one datagram through DgramServer / Mandatory / Edns / service
+async fn run_srv_cases(recs: &mut Vec<Rec>, cases: Vec<SrvCase>, idx: &mut u64, only: Option<u64>) {
+    for c in cases {
+        *idx += 1;
+        if only.map_or(false, |o| o != *idx) { continue; }
+        let line = c.line();
+        let mut config = dgram::Config::new();
+        config.set_max_response_size(c.cfg16());
+        let sh = Shared::default();
+        let beh = match &c.svc { SvcSpec::None => Beh { delay_ms: 0, items: vec![] }, SvcSpec::Err(k) => Beh { delay_ms: 0, items: vec![Err(*k)] }, SvcSpec::Ok(r) => Beh::single(r.clone()) };
+        sh.table.lock().unwrap().insert(c.id, beh);
+        let srv = Arc::new(DgramServer::with_config(MockSock::default(), VecBufSource, stack(&sh), config));
+        let sock = srv.source();
+        let s2 = srv.clone();
+        let handle = tokio::spawn(async move { s2.run().await });
+        PANICKED.store(false, Ordering::SeqCst);
+        let dg = c.datagram();
+        sock.inject(dg.clone(), client_addr());
+        settle(20).await;
+        let outv = sock.take_out();
+        let obs = match outv.len() {
+            0 => "Ok None".to_string(),
+            1 => match view(&outv[0].1) {
+                Some(v) => format!("Ok len={} tc={} id={} cnt={},{},{},{} opt={} b2={} b3={} ottl={}", outv[0].1.len(), v.tc as u8, v.id, v.qd, v.an, v.ns, v.ar, v.opt as u8, v.b2, v.b3, v.ottl),
+                None => "Unparseable".into(),
+            },
+            n => format!("Multi {}", n),
+        };
+        recs.push(Rec::Case(line.clone(), obs, "srv"));
+        chk(recs, !PANICKED.load(Ordering::SeqCst) && !handle.is_finished(), "panic_server", &line, "a server task panicked".into());
+        chk(recs, outv.len() <= 1, "duplicate_response", &line, format!("{} datagrams for one request", outv.len()));
+        chk(recs, outv.iter().all(|(a, _)| *a == client_addr()), "wrong_destination", &line, "a response went to another address".into());
+        if let Some((_, d)) = outv.first() {
+            // the property text's limit; a request that is a reply (QR=1) is still a UDP datagram without EDNS negotiation
+            let lim = text_limit(c.client(), c.cfg16());
+            match view(d) {
+                None => chk(recs, false, "tc_malformed", &line, "response does not parse".into()),
+                Some(v) => {
+                    chk(recs, v.id == c.id, "id_mismatch", &line, format!("response id {}", v.id));
+                    let class = if c.nq > 1 { "udp_oversize_many_questions" } else if v.tc { "udp_oversize_truncated_form" } else { "udp_oversize" };
+                    chk(recs, d.len() <= lim, class, &line, format!("{} octets sent in answer to the {}-octet datagram {}, the property allows {}", d.len(), dg.len(), hex(&dg), lim));
+                    if v.tc { chk(recs, v.an == 0 && v.ns == 0 && (v.ar == 0 || (v.ar == 1 && v.opt)), "tc_malformed", &line, format!("TC set with counts {},{},{},{}", v.qd, v.an, v.ns, v.ar)); }
+                }
+            }
+        } else {
+            chk(recs, matches!(c.svc, SvcSpec::None) && c.b2 & 0x80 == 0, "missing_response", &line, "no datagram although a response was due".into());
+        }
+        let _ = srv.shutdown();
+        settle(2).await;
+    }
+}
+
+fn gen_tcp_case(r: &mut Rng, id: u16) -> SrvCase {
+    let mut c = gen_srv_case(r, id);
+    c.tcp = true;
+    // the request travels in one frame; any number of questions up to ~60 kB is possible, keep it moderate
+    c.opt = match r.below(10) { 0 | 1 | 2 => OptSpec::None, 3 => OptSpec::Dup(pick_size(r)), 4 => OptSpec::Bad, 5 => OptSpec::One(pick_size(r), r.range(1, 3) as u8),
+        6 => OptSpec::Ka(pick_size(r), true), 7 => OptSpec::Ka(pick_size(r), false), _ => OptSpec::One(pick_size(r), 0) };
+    c.cfg = Some(*r.pick(&[30_000u32, 30_000, 200, 12_345, 6_553_500, 6_553_600, 99_999]));
+    if let SvcSpec::Ok(resp) = &mut c.svc {
+        let qsz = qlen_of(&c.labels) * c.nq;
+        let near = *r.pick(&[100usize, 600, 5000, 64_000]);
+        *resp = pick_resp(r, near, qsz);
+    }
+    c
+}
+
+/// T2 + oracle: one request on a StreamServer connection (EDNS non-UDP arm, keepalive option)
+async fn run_tcp_cases(recs: &mut Vec<Rec>, cases: Vec<SrvCase>, idx: &mut u64, only: Option<u64>) {
+    let mut servers: HashMap<u32, StreamSrv> = HashMap::new();
+    let mut port = 7000u16;
+    for c in cases {
+        *idx += 1;
+        if only.map_or(false, |o| o != *idx) { continue; }
+        let idle = c.cfg.unwrap_or(30_000);
+        let srv = servers.entry(idle).or_insert_with(|| {
+            let sh = Shared::default();
+            let mut cc = ConnectionConfig::new();
+            cc.set_idle_timeout(Duration::from_millis(idle as u64));
+            let mut cfg = stream::Config::new();
+            cfg.set_connection_config(cc);
+            let srv = Arc::new(StreamServer::with_config(MockListener::default(), VecBufSource, stack(&sh), cfg));
+            let listener = srv.source();
+            let s2 = srv.clone();
+            let handle = tokio::spawn(async move { s2.run().await });
+            StreamSrv { listener, sh, handle, _srv: srv }
+        });
+        let line = c.line();
+        let beh = match &c.svc { SvcSpec::None => Beh { delay_ms: 0, items: vec![] }, SvcSpec::Err(k) => Beh { delay_ms: 0, items: vec![Err(*k)] }, SvcSpec::Ok(r) => Beh::single(r.clone()) };
+        srv.sh.table.lock().unwrap().clear();
+        srv.sh.table.lock().unwrap().insert(c.id, beh);
+        PANICKED.store(false, Ordering::SeqCst);
+        port = port.wrapping_add(1).max(7000);
+        let mut client = srv.listener.connect(port);
+        let dg = c.datagram();
+        let mut f = vec![(dg.len() >> 8) as u8, dg.len() as u8]; f.extend_from_slice(&dg);
+        let _ = client.write_all(&f).await;
+        let (got, _closed) = drain(&mut client, 60).await;
+        let (frames, leftover) = split_stream(&got);
+        let obs = match frames.len() {
+            0 => "Ok None".to_string(),
+            1 => match view(&frames[0]) {
+                Some(v) => format!("Ok len={} tc={} id={} cnt={},{},{},{} opt={} b2={} b3={} ottl={} odl={}", frames[0].len(), v.tc as u8, v.id, v.qd, v.an, v.ns, v.ar, v.opt as u8, v.b2, v.b3, v.ottl, v.odl),
+                None => "Unparseable".into(),
+            },
+            n => format!("Multi {}", n),
+        };
+        recs.push(Rec::Case(line.clone(), obs, "tcp"));
+        chk(recs, leftover == 0, "framing_wrong", &line, format!("{} octets after the last complete frame", leftover));
+        chk(recs, !PANICKED.load(Ordering::SeqCst) && !srv.handle.is_finished(), "panic_server", &line, "a server task panicked".into());
+        chk(recs, frames.len() <= 1, "duplicate_response", &line, format!("{} frames for one request", frames.len()));
+        if let Some(fr) = frames.first() {
+            match view(fr) {
+                None => chk(recs, false, "framing_wrong", &line, "response frame does not parse".into()),
+                Some(v) => { chk(recs, v.id == c.id, "id_mismatch", &line, format!("response id {}", v.id)); chk(recs, !v.tc, "tc_malformed", &line, "TC set on a stream response".into()); }
+            }
+        } else {
+            chk(recs, matches!(c.svc, SvcSpec::None) && c.b2 & 0x80 == 0, "missing_response", &line, "no frame although a response was due".into());
+        }
+        drop(client);
+        settle(2).await;
+    }
 }
 
 // -------------------------------------------------------- mock sockets (part B)
@@ -640,12 +824,62 @@ fn main() {
         conn_cases.push(chunks);
     }
 
+    // ---- srv: one datagram through the whole datagram server
+    let n_srv = if a.thorough { 12_000 } else { 1_500 } * scale;
+    let mut srv_cases: Vec<SrvCase> = vec![];
+    {
+        let base = SrvCase { tcp: false, id: 0x3000, b2: 0, nq: 1, labels: vec![3], qtype: 1, opt: OptSpec::None, cfg: Some(1232), svc: SvcSpec::Ok(Resp::small()) };
+        let mut push = |f: &dyn Fn(&mut SrvCase)| { let mut c = base.clone(); c.id = 0x3000 + srv_cases.len() as u16; f(&mut c); srv_cases.push(c); };
+        push(&|_| {});
+        push(&|c| { c.b2 = 0x80; });                                        // a reply as request
+        push(&|c| { c.b2 = 0x80; c.nq = 100; c.labels = vec![1]; });        // ... echoing 100 questions
+        push(&|c| { c.nq = 100; c.labels = vec![1]; });                     // QUERY with QDCOUNT 100
+        push(&|c| { c.nq = 2; });
+        push(&|c| { c.b2 = 1 << 3; });                                      // IQUERY
+        push(&|c| { c.b2 = 2 << 3; c.nq = 100; c.labels = vec![1]; });      // STATUS with 100 questions, answered by the service
+        push(&|c| { c.b2 = 2 << 3; c.nq = 100; c.labels = vec![1]; c.svc = SvcSpec::Err(0); });
+        push(&|c| { c.opt = OptSpec::One(4096, 1); });                      // BADVERS
+        push(&|c| { c.opt = OptSpec::Dup(4096); });
+        push(&|c| { c.opt = OptSpec::Bad; });
+        push(&|c| { c.svc = SvcSpec::Err(1); });
+        push(&|c| { c.svc = SvcSpec::None; });
+        push(&|c| { c.nq = 0; });
+    }
+    for i in 0..n_srv { srv_cases.push(gen_srv_case(&mut r, (0x3100 + i) as u16)); }
+    let n_tcp = if a.thorough { 6_000 } else { 800 } * scale;
+    let mut tcp_cases: Vec<SrvCase> = vec![];
+    {
+        let base = SrvCase { tcp: true, id: 0x3800, b2: 1, nq: 1, labels: vec![3], qtype: 1, opt: OptSpec::One(1232, 0), cfg: Some(30_000), svc: SvcSpec::Ok(Resp::small()) };
+        let mut push = |f: &dyn Fn(&mut SrvCase)| { let mut c = base.clone(); c.id = 0x3800 + tcp_cases.len() as u16; f(&mut c); tcp_cases.push(c); };
+        push(&|_| {});
+        push(&|c| { c.opt = OptSpec::None; });
+        push(&|c| { c.opt = OptSpec::Ka(1232, false); });
+        push(&|c| { c.opt = OptSpec::Ka(1232, true); });
+        push(&|c| { c.opt = OptSpec::Bad; });
+        push(&|c| { c.opt = OptSpec::Dup(512); });
+        push(&|c| { c.opt = OptSpec::One(1232, 2); });
+        push(&|c| { c.cfg = Some(6_553_600); });                                   // timeout does not fit a u16: no option
+        push(&|c| { c.svc = SvcSpec::Ok(Resp { opt: Some((4096, 20)), ..Resp::small() }); });
+        push(&|c| { c.svc = SvcSpec::Ok(Resp { n_ar: 2, ar_len: 30, opt: Some((4096, 0)), ..Resp::small() }); });
+        // no room left for the option / the OPT record
+        push(&|c| { c.svc = SvcSpec::Ok(Resp { n_an: 2, an_len: 32_745, opt: Some((4096, 0)), ..Resp::small() }); });
+        push(&|c| { c.svc = SvcSpec::Ok(Resp { n_an: 2, an_len: 32_749, opt: Some((4096, 0)), ..Resp::small() }); });
+        push(&|c| { c.svc = SvcSpec::Ok(Resp { n_an: 2, an_len: 32_752, opt: None, ..Resp::small() }); });
+        push(&|c| { c.svc = SvcSpec::Ok(Resp { n_an: 2, an_len: 32_750, opt: None, ..Resp::small() }); });
+        push(&|c| { c.svc = SvcSpec::Err(2); });
+        push(&|c| { c.b2 = 0x80; });
+        push(&|c| { c.nq = 3; });
+    }
+    for i in 0..n_tcp { tcp_cases.push(gen_tcp_case(&mut r, (0x3900 + i) as u16)); }
+
     let rt2 = rt();
     let only = a.only;
     let seed2 = r.next();
     let res = rt2.block_on(async move {
         let mut rr = Rng(seed2);
         let mut recs: Vec<Rec> = vec![];
+        run_srv_cases(&mut recs, srv_cases, &mut idx, only).await;
+        run_tcp_cases(&mut recs, tcp_cases, &mut idx, only).await;
         run_conn_cases(&mut recs, conn_cases, &mut idx, only).await;
         run_dgram(&mut recs, &mut rr, n_dg, &mut idx, only).await;
         run_stream(&mut recs, &mut rr, n_st, &mut idx, only).await;
